@@ -42,7 +42,7 @@ def read_tsv(path):
     return rows
 
 
-def run_task(file_text, over, pool=None, data_name='data.csv', keep_dir=False, pool_factory=None):
+def run_task(file_text, over, pool=None, data_name='data.csv', keep_dir=False, pool_factory=None, via_cli=False, reset=True):
     """Run the real ranking task on a CSV given as text.  Returns a dict of observations."""
     from outrank import core_ranking as cr
     from outrank import task_ranking as tr
@@ -54,7 +54,8 @@ def run_task(file_text, over, pool=None, data_name='data.csv', keep_dir=False, p
         kw = dict(data_path=d, data_source='csv-raw', output_folder=os.path.join(d, 'out'), disable_tqdm='True', num_threads=1)
         kw.update(over)
         args = harness.make_args(**kw)
-        harness.reset_state()
+        if reset:
+            harness.reset_state()
         log = LogModule()
         the_pool = pool if pool is not None else harness.InlinePool()
         orig = dict(Pool=tr.Pool, logging=tr.logging, cbr=cr.compute_batch_ranking, ckpt=cr.checkpoint_importances_df, eim=tr.estimate_importances_minibatches)
@@ -84,7 +85,22 @@ def run_task(file_text, over, pool=None, data_name='data.csv', keep_dir=False, p
                 warnings.simplefilter('ignore')
                 with np.errstate(all='ignore'):
                     try:
-                        tr.outrank_task_conduct_ranking(args)
+                        if via_cli:
+                            # the real command line: argparse in outrank.__main__.main() builds the namespace
+                            import sys
+                            import outrank.__main__ as cli
+                            argv = ['outrank']
+                            for k_, v_ in kw.items():
+                                if v_ is not None:
+                                    argv += ['--' + k_, str(v_)]
+                            old_argv = sys.argv
+                            sys.argv = argv
+                            try:
+                                cli.main()
+                            finally:
+                                sys.argv = old_argv
+                        else:
+                            tr.outrank_task_conduct_ranking(args)
                     except SystemExit as e:
                         obs['exit'] = str(e.code)
                     obs['checkpoint_left_behind'] = os.path.exists('ranking_checkpoint_tmp.tsv')
@@ -169,12 +185,12 @@ def table_to_map(rows, acol, bcol, scol):
     return out
 
 
-def judge_streaming(file_text, over):
+def judge_streaming(file_text, over, via_cli=False):
     """C08 oracle for one file/config.  Returns (fails [(sig,msg)], info dict)."""
     over = dict(over)
     over.setdefault('include_cardinality_in_feature_names', 'False')
     over.setdefault('heuristic', 'MI-numba-randomized')
-    ok, obs = safe(run_task, file_text, over)
+    ok, obs = safe(run_task, file_text, over, via_cli=via_cli)
     if not ok:
         return [({'kind': 'exception'}, f'ranking task raised {obs}')], {}
     fails = []
@@ -266,7 +282,7 @@ def judge_quality_e2e(case):
     mb = case['minibatch_size']
     over = dict(minibatch_size=mb, subsampling=1, task=case['task'], rare_value_count_upper_bound=case['threshold'],
                 include_cardinality_in_feature_names='True', heuristic='MI-numba-randomized')
-    ok, obs = safe(run_task, text, over)
+    ok, obs = safe(run_task, text, over, via_cli=bool(case.get('via_cli')))
     if not ok:
         return [({'kind': 'exception', 'task': case['task']}, f'task raised {obs}')]
     fails = []
